@@ -212,13 +212,14 @@ def repo_include_flags(outdir):
 
 
 def cc_build(outdir, exe, harness_srcs, lib_srcs=None, extra=None, san=True, opt="-O1", wraps=None,
-             defines=None, cc="gcc"):
+             defines=None, cc="gcc", ldflags=None, san_flags=None):
     """Compile harness sources (under /verif/harness) and the named library
     sources straight from /repo/src into outdir/exe.  Returns (ok, log)."""
     os.makedirs(outdir, exist_ok=True)
     flags = repo_include_flags(outdir) + [opt, "-g", "-pthread", "-DIVYKIS_VERIF"]
+    sanf = san_flags if san_flags is not None else SAN
     if san:
-        flags += SAN
+        flags += sanf
     for d in (defines or []):
         flags.append("-D" + d)
     flags += (extra or [])
@@ -250,7 +251,7 @@ def cc_build(outdir, exe, harness_srcs, lib_srcs=None, extra=None, san=True, opt
             logs.append(out)
     if not ok:
         return False, "\n".join(logs)
-    link = [cc] + objs + ["-o", os.path.join(outdir, exe), "-pthread"] + (SAN if san else [])
+    link = [cc] + objs + ["-o", os.path.join(outdir, exe), "-pthread"] + (sanf if san else []) + (ldflags or [])
     for w in (wraps or []):
         link.append("-Wl,--wrap=" + w)
     rc, out = sh(link, timeout=300)
